@@ -838,6 +838,7 @@ func TestVerifC19Rules(t *testing.T) {
 	env := c19Setup(t)
 	root := vf.NewRand(vf.Seed())
 	quick := os.Getenv("VERIF_TIER") == "quick"
+	rot := int(vf.Seed() % 1000) // which part of the systematic products a quick run takes
 
 	var bases []any
 
@@ -910,9 +911,9 @@ func TestVerifC19Rules(t *testing.T) {
 					underConfig = underConfig || e == "config"
 				}
 
-				// the two large rule sets: a part of the product per quick run, but below `config` always the
-				// replacement by an int and by a map with a non-string key
-				if quick && (bi == 0 || bi == 3) && (pi+k)%(6-bi) != 0 && !(underConfig && (k == 1 || k == 11)) {
+				// quick: a part of the product per run (which part rotates with the seed), but below `config` always
+				// the replacement by an int and by a map with a non-string key
+				if quick && (pi+k+rot)%[]int{8, 2, 2, 8}[bi] != 0 && !(underConfig && (k == 1 || k == 11)) {
 					continue
 				}
 
@@ -950,7 +951,7 @@ func TestVerifC19Rules(t *testing.T) {
 
 			for vi, v := range badStrings {
 				n++
-				if quick && (n+bi)%5 != 0 {
+				if quick && (n+bi+rot)%15 != 0 {
 					continue
 				}
 
@@ -988,7 +989,7 @@ func TestVerifC19Rules(t *testing.T) {
 
 				for k := 0; k < c19Kinds; k++ {
 					n++
-					if quick && n%9 != 0 {
+					if quick && (n+rot)%27 != 0 {
 						continue
 					}
 
@@ -1023,6 +1024,10 @@ func TestVerifC19Rules(t *testing.T) {
 						{{kindKey, nil}, {"config", map[any]any{1: 2}}}, {{kindKey, "nope"}, {"config", "x"}},
 						{{kindKey, "nope"}, {"if", 42}}, {{"finalizer", 42}, {"authorizer", 42}},
 					} {
+						if quick && (si+ci+rot)%2 != 0 {
+							continue
+						}
+
 						tree := c19Clone(base)
 						for _, kv := range combo {
 							tree = c19Set(tree, append(append([]any{}, p...), kv[0]), kv[1])
